@@ -6,8 +6,10 @@ C07 line protocol.  One line = one whole navigation history:
   every URL is ten comma-separated fields
     scheme,hasAuthority,user,password,host,v6,port,path,query,fragment
   texts as hex UTF-8 (`-` = empty, `N` = undefined for scheme / query / fragment), flags 0/1, port decimal (0 = none).
-Output: `T<base text> T<text after ref 1> ... N T<normalize()> T<normalize() twice> T<normalize(with_case=False)>`
-(the three normalisations are applied to a fresh copy of the base).
+Output: `<base> <after ref 1> ... N <normalize()> <normalize() twice> <normalize(with_case=False)>`
+(the three normalisations are applied to a fresh copy of the base), where a URL with a host is shown as
+`T<to_text()>` and a URL without a host as `C<scheme>|<user>|<password>|<port>|<path>|<query>|<fragment>`
+(how `to_text()` writes an empty authority belongs to property C06 and is not compared here).
     tables          prints the generated scheme tables back (checked against the live module)
 -/
 namespace C07.Driver
@@ -37,7 +39,10 @@ def parseURL? (tok : String) : Option URL :=
     pure (URL.ofComponents sc au us pw ho v6 po pa qu fr)
   | _ => none
 
-def showT (s : Str) : String := "T" ++ String.ofList s
+def showU (u : URL) : String :=
+  if u.host ≠ [] then "T" ++ String.ofList u.toText
+  else "C" ++ "|".intercalate [String.ofList u.scheme, String.ofList u.user, String.ofList u.pass, toString u.port,
+    String.ofList u.pathText, String.ofList u.query, String.ofList u.fragment]
 
 def parseAll? : List String → Option (List URL)
   | [] => some []
@@ -62,8 +67,7 @@ def handle (line : String) : String :=
       let n1 := base.normalize
       let n2 := n1.normalize
       let n3 := base.normalize false
-      " ".intercalate ([showT base.toText] ++ (trail base dests).map (fun u => showT u.toText) ++
-        ["N", showT n1.toText, showT n2.toText, showT n3.toText])
+      " ".intercalate ([showU base] ++ (trail base dests).map showU ++ ["N", showU n1, showU n2, showU n3])
     | _, _ => "bad-op"
   | _ => "bad-op"
 
